@@ -77,7 +77,7 @@ def run(pid, tier, seed, replay=None):
     t0 = time.time()
     d = clean_dir(outdir(pid, "work"))
     build_harness()
-    n_r = 320 if tier == "quick" else 1600   # 4 rounds over the classes: (matched | not) x (direct | through socket + UDPListener)
+    n_r = 324 if tier == "quick" else 1620   # 4 rounds over the classes: (matched | not) x (direct | through socket + UDPListener)
     n_w = 72 if tier == "quick" else 480
     results, deaths_all, stats = [], [], {}
     sources = [("reader", n_r, "Trace_RtpsReader.tla", "Trace_RtpsReader.cfg"), ("writer", n_w, "Trace_RtpsWriter.tla", "Trace_RtpsWriter.cfg")]
